@@ -774,3 +774,19 @@ Example reap_boundary :
   map c_wc (st_chans (run p_ok (init 1 1000 1000) [EConnect 0; EPoll; EAdvance 5; EPoll])) = [false] /\
   st_chans (run p_ok (init 1 1000 1000) [EConnect 0; EPoll; EAdvance 6; EPoll]) = [].
 Proof. vm_compute. split; reflexivity. Qed.
+
+(* the full statement of the property's reaping clause (no writability hypothesis) *)
+Definition reap_deadline_full : Prop :=
+  forall p nl t0 fd0 s f o es P,
+  reachable p nl t0 fd0 s -> 0 <= t0 -> 0 <= p_interval p -> 0 <= P ->
+  idle_expired p f o s ->
+  Forall (quiet_ev f) es ->
+  period_ok p P s (st_clock s) es ->
+  st_clock s + p_interval p + P < st_clock (run p s es) ->
+  ~ In f (chan_fds (run p s es)).
+
+Theorem reap_deadline_full_refuted : ~ reap_deadline_full.
+Proof.
+  intros H. destruct reap_refuted as (p & nl & t0 & fd0 & s & f & o & es & P & A1 & A2 & A3 & A4 & A5 & A6 & A7 & A8 & A9).
+  exact (H p nl t0 fd0 s f o es P A1 A2 A3 A4 A5 A6 A7 A8 A9).
+Qed.
